@@ -3,7 +3,7 @@
    (Alg/C13Samplers.v, Alg/C13Solver.v, Alg/C13Steps.v).  Only statements, `exact`, Print Assumptions. *)
 From Coq Require Import List ZArith Arith Bool QArith Qcanon.
 From PV Require Import Base.Index Np.Array Model.Sparse Alg.C13Samplers Alg.C13Solver Alg.C13Steps Alg.C13Config Alg.C13Harness.
-From PV Require Import Model.Repr Model.C08Kruskal Alg.C13Vec Model.Harness Alg.C13StepArith.
+From PV Require Import Model.Repr Model.C08Kruskal Alg.C13Vec Model.Harness Alg.C13StepArith Alg.C13Thm.
 Import ListNotations.
 Local Open Scope nat_scope.
 
@@ -67,28 +67,19 @@ Variables (fest : M -> E) (max_fails : nat) (tol : option E).
 Theorem C13_reuse_sgd : forall (epoch : nat -> nat -> unit -> M -> M * unit) on_fail obj1 obj2 max_iters m0,
   solve_obj M unit E leb fest epoch on_fail (fun o => o) max_fails tol obj1 max_iters m0 =
   solve_obj M unit E leb fest epoch on_fail (fun o => o) max_fails tol obj2 max_iters m0.
-Proof.
-  intros epoch on_fail. apply (reuse_reset M unit E leb fest epoch on_fail (fun o => o) max_fails tol).
-  intros [] []. reflexivity.
-Qed.
+Proof. exact (thm_reuse_sgd M E leb fest max_fails tol). Qed.
 
 (* Adam: _m, _v, _m_prev, _v_prev, _total_iterations are forgotten *)
 Theorem C13_reuse_adam : forall (V : Type) (epoch : nat -> nat -> adam_state V -> M -> M * adam_state V) on_fail obj1 obj2 max_iters m0,
   solve_obj M (adam_state V) E leb fest epoch on_fail (adam_reset V) max_fails tol obj1 max_iters m0 =
   solve_obj M (adam_state V) E leb fest epoch on_fail (adam_reset V) max_fails tol obj2 max_iters m0.
-Proof.
-  intros V epoch on_fail. apply (reuse_reset M (adam_state V) E leb fest epoch on_fail (adam_reset V) max_fails tol).
-  exact (adam_reset_const V).
-Qed.
+Proof. exact (thm_reuse_adam M E leb fest max_fails tol). Qed.
 
 (* Adagrad: _gnormsum is forgotten *)
 Theorem C13_reuse_adagrad : forall (V : Type) (v0 : V) (epoch : nat -> nat -> V -> M -> M * V) on_fail obj1 obj2 max_iters m0,
   solve_obj M V E leb fest epoch on_fail (adagrad_reset V v0) max_fails tol obj1 max_iters m0 =
   solve_obj M V E leb fest epoch on_fail (adagrad_reset V v0) max_fails tol obj2 max_iters m0.
-Proof.
-  intros V v0 epoch on_fail. apply (reuse_reset M V E leb fest epoch on_fail (adagrad_reset V v0) max_fails tol).
-  exact (adagrad_reset_const V v0).
-Qed.
+Proof. exact (thm_reuse_adagrad M E leb fest max_fails tol). Qed.
 
 (* every solve of a sequence issued to ONE object equals the same solve on a fresh object *)
 Theorem C13_reuse_sequence : forall (O : Type) (epoch : nat -> nat -> O -> M -> M * O) on_fail reset,
@@ -96,7 +87,7 @@ Theorem C13_reuse_sequence : forall (O : Type) (epoch : nat -> nat -> O -> M -> 
   forall fresh reqs obj,
     solve_seq M O E leb fest epoch on_fail reset max_fails tol obj reqs =
     map (fun q => solve_obj M O E leb fest epoch on_fail reset max_fails tol fresh (fst q) (snd q)) reqs.
-Proof. intros O epoch on_fail reset. exact (reuse_sequence M O E leb fest epoch on_fail reset max_fails tol). Qed.
+Proof. exact (thm_reuse_sequence M E leb fest max_fails tol). Qed.
 End ReuseProps.
 Print Assumptions C13_reuse_sgd.
 Print Assumptions C13_reuse_adam.
@@ -118,7 +109,7 @@ Theorem C13_lbfgsb_wrap : forall (Mdl V F CB KW : Type) (leb : F -> F -> bool) (
   tovec (o_model _ _ _ _ _ o) = o_final_vector _ _ _ _ _ o /\
   (Forall (within V vle lb) (tovec m0) ->
    leb (objective (o_model _ _ _ _ _ o)) (objective m0) = true /\ Forall (within V vle lb) (tovec (o_model _ _ _ _ _ o))).
-Proof. intros Mdl V F CB KW leb vle tovec update objective wf H1 H2 scipy. exact (lbfgsb_wrap Mdl V F CB KW leb vle tovec update objective wf H1 H2 scipy). Qed.
+Proof. exact lbfgsb_wrap. Qed.
 Print Assumptions C13_lbfgsb_wrap.
 
 (* the same for Kruskal models as they are (tovec = ktensor.tovec(False), update = ktensor.update(arange(ndims), .) from the
@@ -137,8 +128,9 @@ Theorem C13_lbfgsb_wrap_ktensor : forall (V : Type) (v0 : V) (F CB KW : Type) (l
 Proof. exact lbfgsb_wrap_ktensor. Qed.
 Print Assumptions C13_lbfgsb_wrap_ktensor.
 
-(* info["final_f"]: equal to the objective of the returned model, hence no worse than the start, on every run in which scipy
-   reports the value at the point it returns (all runs without an abandoned line search; otherwise finding C13-L1) *)
+(* info["final_f"] is the objective of the returned model, hence no worse than a feasible start — on EVERY run (C13-L1 repaired,
+   /repo a2890fd): scipy_reports_value only says that scipy reports the value at the point it returns when it did NOT abandon a
+   line search (warnflag <> 2); after an abandoned line search the wrapper re-evaluates the returned model itself *)
 Theorem C13_lbfgsb_final_f : forall (Mdl V F CB KW : Type) (leb : F -> F -> bool) (vle : V -> V -> Prop)
   (tovec : Mdl -> list V) (update : Mdl -> list V -> Mdl) (objective : Mdl -> F) (wf : Mdl -> Prop),
   (forall m, wf m -> update m (tovec m) = m) ->
@@ -147,19 +139,21 @@ Theorem C13_lbfgsb_final_f : forall (Mdl V F CB KW : Type) (leb : F -> F -> bool
   Forall (within V vle lb) (tovec m0) ->
   let o := lbfgsb_solve Mdl V F CB KW tovec update objective scipy (mkKw CB KW (UserCb CB cb) other) m0 lb in
   objective (o_model _ _ _ _ _ o) = o_final_f _ _ _ _ _ o /\ leb (o_final_f _ _ _ _ _ o) (objective m0) = true.
-Proof.
-  intros Mdl V F CB KW leb vle tovec update objective wf H1 H2 scipy HC HR cb other m0 lb Hwf Hfeas.
-  exact (conj (lbfgsb_final_f Mdl V F CB KW tovec update objective scipy HR (mkKw CB KW (UserCb CB cb) other) m0 lb)
-              (lbfgsb_final_f_le Mdl V F CB KW leb vle tovec update objective wf H1 H2 scipy HC HR cb other m0 lb Hwf Hfeas)).
-Qed.
+Proof. exact thm_lbfgsb_final_f. Qed.
 Print Assumptions C13_lbfgsb_final_f.
+(* after an abandoned line search (warnflag 2) nothing is assumed of scipy: final_f is the wrapper's own evaluation *)
+Theorem C13_lbfgsb_final_f_abandoned : forall (Mdl V F CB KW : Type) (tovec : Mdl -> list V) (update : Mdl -> list V -> Mdl)
+  (objective : Mdl -> F) scipy kw m0 lb,
+  let o := lbfgsb_solve Mdl V F CB KW tovec update objective scipy kw m0 lb in
+  o_warnflag _ _ _ _ _ o = 2 -> objective (o_model _ _ _ _ _ o) = o_final_f _ _ _ _ _ o.
+Proof. exact lbfgsb_final_f_abandoned. Qed.
+Print Assumptions C13_lbfgsb_final_f_abandoned.
 
-(* LBFGSB.Monitor: at most max(maxiter, 1) callbacks (scipy's loop) against maxiter time_trace slots: no IndexError for every
-   maxiter >= 1, IndexError at the first callback for maxiter = 0 (open finding C13-L2), never with max(maxiter, 1) slots *)
+(* LBFGSB.Monitor: at most max(maxiter, 1) callbacks (scipy's loop) against max(maxiter, 1) time_trace slots: no IndexError for
+   ANY maxiter, 0 included (C13-L2 repaired, /repo 87cee74); for maxiter >= 1 the trace has maxiter slots as before *)
 Theorem C13_lbfgsb_monitor : forall maxiter ncalls, ncalls <= Nat.max maxiter 1 ->
-  (1 <= maxiter -> monitor_raises (monitor_slots maxiter) ncalls = false) /\
-  monitor_raises (monitor_slots_fixed maxiter) ncalls = false /\
-  (monitor_raises (monitor_slots 0) ncalls = true <-> 1 <= ncalls).
+  monitor_raises (monitor_slots maxiter) ncalls = false /\ 1 <= monitor_slots maxiter /\
+  (1 <= maxiter -> monitor_slots maxiter = maxiter).
 Proof. exact monitor_index. Qed.
 Print Assumptions C13_lbfgsb_monitor.
 
@@ -168,57 +162,68 @@ Theorem C13_lbfgsb_reuse : forall (Mdl V F CB KW : Type) (tovec : Mdl -> list V)
   let kw := mkKw CB KW (UserCb CB cb) other in
   lbfgsb_solve Mdl V F CB KW tovec update objective scipy (o_kwargs _ _ _ _ _ (lbfgsb_solve Mdl V F CB KW tovec update objective scipy kw m0 lb)) m1 lb1 =
   lbfgsb_solve Mdl V F CB KW tovec update objective scipy kw m1 lb1.
-Proof. intros Mdl V F CB KW tovec update objective. exact (lbfgsb_reuse Mdl V F CB KW tovec update objective). Qed.
+Proof. exact lbfgsb_reuse. Qed.
 Print Assumptions C13_lbfgsb_reuse.
 
 (* ================================ GCPSampler default-count rules =============================== *)
+(* the table is a transliteration with math.ceil of the float quotient as an ORACLE cd (recorded by the harness on every run);
+   every statement holds for every oracle, i.e. however the quotient is rounded *)
 Local Open Scope Z_scope.
-Theorem C13_sampler_defaults_feasible : forall sparse size nnz max_iters k, 0 <= nnz <= size -> 0 < max_iters ->
-  (fn_config sparse size nnz k RNone <> CError -> conf_feasible size nnz (fn_config sparse size nnz k RNone)) /\
-  (gr_config sparse size nnz max_iters k RNone <> CError -> conf_feasible size nnz (gr_config sparse size nnz max_iters k RNone)).
-Proof.
-  intros sparse size nnz max_iters k H Hm.
-  exact (conj (fn_default_feasible sparse size nnz k H) (gr_default_feasible sparse size nnz max_iters k H Hm)).
-Qed.
+Theorem C13_sampler_defaults_feasible : forall cd sparse size nnz max_iters k, 0 <= nnz <= size -> 0 < max_iters ->
+  (fn_config_o cd sparse size nnz k RNone <> CError -> conf_feasible size nnz (fn_config_o cd sparse size nnz k RNone)) /\
+  (gr_config_o cd sparse size nnz max_iters k RNone <> CError -> conf_feasible size nnz (gr_config_o cd sparse size nnz max_iters k RNone)).
+Proof. exact thm_sampler_defaults_feasible. Qed.
 Print Assumptions C13_sampler_defaults_feasible.
 
-Theorem C13_sampler_defaults_small : forall size nnz max_iters, 0 <= nnz <= size -> 0 < max_iters ->
-  (nnz <= 10 ^ 5 -> fn_config true size nnz None RNone = CStratified nnz (Z.min nnz (size - nnz))) /\
-  (size <= 10 ^ 6 -> fn_config false size nnz None RNone = CUniform size) /\
-  (nnz <= 1000 -> gr_config true size nnz max_iters None RNone = CStratified nnz (Z.min nnz (size - nnz))) /\
-  (size <= 1000 -> gr_config false size nnz max_iters None RNone = CUniform size).
-Proof.
-  intros size nnz max_iters H Hm.
-  exact (conj (proj1 (fn_default_small size nnz H)) (conj (proj2 (fn_default_small size nnz H)) (gr_default_small size nnz max_iters H Hm))).
-Qed.
+Theorem C13_sampler_defaults_small : forall cd size nnz max_iters, 0 <= nnz <= size -> 0 < max_iters ->
+  (nnz <= 10 ^ 5 -> fn_config_o cd true size nnz None RNone = CStratified nnz (Z.min nnz (size - nnz))) /\
+  (size <= 10 ^ 6 -> fn_config_o cd false size nnz None RNone = CUniform size) /\
+  (nnz <= 1000 -> gr_config_o cd true size nnz max_iters None RNone = CStratified nnz (Z.min nnz (size - nnz))) /\
+  (size <= 1000 -> gr_config_o cd false size nnz max_iters None RNone = CUniform size).
+Proof. exact thm_sampler_defaults_small. Qed.
 Print Assumptions C13_sampler_defaults_small.
 
-Theorem C13_sampler_table : forall sparse size nnz max_iters n nz z req,
-  (fn_config sparse size nnz (Some Uniform) (RInt n) = CUniform n /\
-   fn_config true size nnz (Some Stratified) (RInt n) = CStratified n n /\
-   fn_config true size nnz (Some Stratified) (RStrat nz z) = CStratified nz z /\
-   gr_config false size nnz max_iters (Some Uniform) (RInt n) = CUniform n /\
-   gr_config true size nnz max_iters (Some Uniform) (RInt n) = CPoisson n size nnz /\
-   gr_config true size nnz max_iters (Some Stratified) (RInt n) = CStratified n n /\
-   gr_config true size nnz max_iters (Some Stratified) (RStrat nz z) = CStratified nz z /\
-   gr_config sparse size nnz max_iters (Some Semistratified) (RInt n) = CSemistrat n n /\
-   gr_config sparse size nnz max_iters (Some Semistratified) (RStrat nz z) = CSemistrat nz z) /\
-  (fn_config false size nnz (Some Stratified) req = CError /\
-   gr_config false size nnz max_iters (Some Stratified) req = CError /\
-   fn_config sparse size nnz (Some Semistratified) req = CError /\
-   fn_config sparse size nnz (Some Uniform) (RStrat nz z) = CError /\
-   gr_config sparse size nnz max_iters (Some Uniform) (RStrat nz z) = CError) /\
+Theorem C13_sampler_table : forall cd sparse size nnz max_iters n nz z req,
+  (fn_config_o cd sparse size nnz (Some Uniform) (RInt n) = CUniform n /\
+   fn_config_o cd true size nnz (Some Stratified) (RInt n) = CStratified n n /\
+   fn_config_o cd true size nnz (Some Stratified) (RStrat nz z) = CStratified nz z /\
+   gr_config_o cd false size nnz max_iters (Some Uniform) (RInt n) = CUniform n /\
+   gr_config_o cd true size nnz max_iters (Some Uniform) (RInt n) = CPoisson n size nnz /\
+   gr_config_o cd true size nnz max_iters (Some Stratified) (RInt n) = CStratified n n /\
+   gr_config_o cd true size nnz max_iters (Some Stratified) (RStrat nz z) = CStratified nz z /\
+   gr_config_o cd sparse size nnz max_iters (Some Semistratified) (RInt n) = CSemistrat n n /\
+   gr_config_o cd sparse size nnz max_iters (Some Semistratified) (RStrat nz z) = CSemistrat nz z) /\
+  (fn_config_o cd false size nnz (Some Stratified) req = CError /\
+   gr_config_o cd false size nnz max_iters (Some Stratified) req = CError /\
+   fn_config_o cd sparse size nnz (Some Semistratified) req = CError /\
+   fn_config_o cd sparse size nnz (Some Uniform) (RStrat nz z) = CError /\
+   gr_config_o cd sparse size nnz max_iters (Some Uniform) (RStrat nz z) = CError) /\
   (default_kind sparse None = (if sparse then Stratified else Uniform) /\
-   crng_len (fn_config sparse size nnz None req) = 0 /\
-   crng_len (gr_config sparse size nnz max_iters None req) = 0 /\
-   (forall nz z, gr_config sparse size nnz max_iters (Some Semistratified) req = CSemistrat nz z ->
-                 crng_len (gr_config sparse size nnz max_iters (Some Semistratified) req) = nz)).
-Proof.
-  intros sparse size nnz max_iters n nz z req.
-  exact (conj (explicit_requests sparse size nnz max_iters n nz z)
-        (conj (rejected_requests size nnz max_iters req nz z sparse) (kind_defaults_and_crng sparse size nnz max_iters req))).
-Qed.
+   crng_len (fn_config_o cd sparse size nnz None req) = 0 /\
+   crng_len (gr_config_o cd sparse size nnz max_iters None req) = 0 /\
+   (forall nz z, gr_config_o cd sparse size nnz max_iters (Some Semistratified) req = CSemistrat nz z ->
+                 crng_len (gr_config_o cd sparse size nnz max_iters (Some Semistratified) req) = nz)).
+Proof. exact thm_sampler_table. Qed.
 Print Assumptions C13_sampler_table.
+
+(* the ceil oracle: cdiv (the instance fn_config / gr_config use) is the exact ceiling; a side's configuration depends on the
+   oracle only through the one quotient it asks for; explicit requests never call it *)
+Theorem C13_sampler_ceil :
+  (forall a b, 0 < b -> (cdiv a b - 1) * b < a <= cdiv a b * b) /\
+  (forall cd1 cd2 sparse size nnz max_iters k req,
+     (cd1 nnz 100 = cd2 nnz 100 -> cd1 size 10 = cd2 size 10 ->
+      fn_config_o cd1 sparse size nnz k req = fn_config_o cd2 sparse size nnz k req) /\
+     (cd1 (10 * size) max_iters = cd2 (10 * size) max_iters -> cd1 (3 * nnz) max_iters = cd2 (3 * nnz) max_iters ->
+      gr_config_o cd1 sparse size nnz max_iters k req = gr_config_o cd2 sparse size nnz max_iters k req)) /\
+  (forall sparse k max_iters req, req <> RNone -> fn_ceil_calls sparse k req = 0%nat /\ gr_ceil_calls max_iters req = 0%nat).
+Proof. exact thm_sampler_ceil. Qed.
+Print Assumptions C13_sampler_ceil.
+(* the recorded float ceiling (cd_obs: the oracle the generated cases run the table with) is never further than 1 from the exact
+   ceiling, for every quotient below 2^52 *)
+Theorem C13_ceil_oracle_bound : forall calls a b, 0 <= a -> 0 < b -> a < b * 2 ^ 52 ->
+  cd_obs calls a b = -1 \/ cdiv a b - 1 <= cd_obs calls a b <= cdiv a b + 1.
+Proof. exact cd_obs_bound. Qed.
+Print Assumptions C13_ceil_oracle_bound.
 Local Close Scope Z_scope.
 
 (* ================================ projected update steps ======================================= *)
@@ -231,12 +236,7 @@ Theorem C13_bounds_steps : forall (V : Type) (vle : V -> V -> Prop) (vmax : V ->
   (forall rate decay b1 b2 eps ei nf o xs gs,
      Forall (above V vle lb) (fst (adam_step V vmax vadd vsub vmul vdiv vsqrt vpow v0 v1 rate decay b1 b2 eps ei nf lb o xs gs))) /\
   (forall gsum xs gs, Forall (above V vle lb) (fst (adagrad_step V vmax vadd vsub vmul vdiv vsqrt v0 v1 lb gsum xs gs))).
-Proof.
-  intros V vle vmax H vadd vsub vmul vdiv vsqrt vpow v0 v1 lb. repeat split; intros.
-  - apply (sgd_step_above V vle vmax H).
-  - apply (adam_step_above V vle vmax H).
-  - apply (adagrad_step_above V vle vmax H).
-Qed.
+Proof. exact thm_bounds_steps. Qed.
 Print Assumptions C13_bounds_steps.
 
 (* an epoch of k >= 1 such steps establishes the bound; k = 0 keeps it *)
@@ -264,10 +264,7 @@ Print Assumptions C13_sgd_step_arith.
 Theorem C13_sgd_stepsize : forall rate decay nf,
   sgd_stepsize rate decay 0 = rate /\ sgd_stepsize rate decay (S nf) = decay * sgd_stepsize rate decay nf /\
   (0 <= rate -> 0 <= decay -> 0 <= sgd_stepsize rate decay nf).
-Proof.
-  intros rate decay nf.
-  exact (conj (Qcmult_1_l rate) (conj (sgd_stepsize_fail rate decay nf) (sgd_stepsize_nonneg rate decay nf))).
-Qed.
+Proof. exact thm_sgd_stepsize. Qed.
 Print Assumptions C13_sgd_stepsize.
 
 (* Adagrad: the accumulator grows by the squared gradient norm, step = 1 / sqrt(accumulator) >= 0, x' = max(lb, x - step * g);
@@ -326,27 +323,20 @@ Theorem C13_adam_failed_epoch : forall (V : Type) (vmax vadd vsub vmul vdiv : V 
    mkAdam V (am V o) (av V o) (am V o) (av V o) (atot V o)) /\
   adam_failed V ei (snd (adam_step V vmax vadd vsub vmul vdiv vsqrt vpow v0 v1 rate decay b1 b2 eps ei nf lb (adam_reset V o) xs gs)) =
   mkAdam V (map (fun _ => v0) xs) (map (fun _ => v0) xs) (map (fun _ => v0) xs) (map (fun _ => v0) xs) 0.
-Proof.
-  intros V vmax vadd vsub vmul vdiv vsqrt vpow v0 v1 rate decay b1 b2 eps ei nf lb o xs gs.
-  exact (conj (adam_failed_after_step V vmax vadd vsub vmul vdiv vsqrt vpow v0 v1 rate decay b1 b2 eps ei nf lb o xs gs)
-              (adam_failed_after_first_step V vmax vadd vsub vmul vdiv vsqrt vpow v0 v1 rate decay b1 b2 eps ei nf lb o xs gs)).
-Qed.
+Proof. exact thm_adam_failed_epoch. Qed.
 Print Assumptions C13_adam_failed_epoch.
 
 (* ================================ samplers (draws are inputs) ================================== *)
 Local Open Scope Z_scope.
 (* one draw u = a/D in [0,1) — 0.0 included — gives floor(u*d), a subscript inside the mode (A-48 repaired) ... *)
 Theorem C13_draw_in_range : forall D a d, 0 < D -> 0 <= a < D -> 0 < d -> 0 <= draw_sub D a d < d.
-Proof. intros D a d HD. exact (draw_sub_range D HD a d). Qed.
+Proof. exact (fun D a d HD => draw_sub_range D HD a d). Qed.
 Print Assumptions C13_draw_in_range.
 (* ... and every index of the mode is reachable, the first by u = 0 and the last by u = 1 - 1/D (for uniform, zeros and
    semi-stratified alike: they share the same draw) *)
 Theorem C13_draw_onto : forall D d, 0 < D -> 0 < d <= D ->
   (forall j, 0 <= j < d -> exists a, 0 <= a < D /\ draw_sub D a d = j) /\ draw_sub D 0 d = 0 /\ draw_sub D (D - 1) d = d - 1.
-Proof.
-  intros D d HD Hd.
-  exact (conj (fun j => draw_sub_onto D HD d j Hd) (conj (draw_sub_first D HD d (proj1 Hd)) (draw_sub_last D d Hd))).
-Qed.
+Proof. exact thm_draw_onto. Qed.
 Print Assumptions C13_draw_onto.
 
 (* uniform: one subscript row, one value per sample; subscripts inside the tensor; values = data there *)
@@ -355,10 +345,7 @@ Theorem C13_uniform : forall (V : Type) (v0 : V) D (X : dense V) draws, 0 < D ->
   length (uniform_subs D (dshape X) draws) = length draws /\ length (uniform_vals D v0 X draws) = length draws /\
   Forall2 (fun row v => exists i, row = zidx i /\ inb (dshape X) i = true /\ v = den_dense v0 X i)
           (uniform_subs D (dshape X) draws) (uniform_vals D v0 X draws).
-Proof.
-  intros V v0 D X draws HD Hs Hd.
-  exact (conj (proj1 (uniform_lengths D v0 X draws)) (conj (proj2 (uniform_lengths D v0 X draws)) (uniform_values D HD v0 X draws Hs Hd))).
-Qed.
+Proof. exact thm_uniform. Qed.
 Print Assumptions C13_uniform.
 
 (* nonzero samples (stratified and semi-stratified): stored subscripts with the data at them *)
@@ -367,10 +354,7 @@ Theorem C13_nonzero_samples : forall (V : Type) (v0 : V) (isz : V -> bool) (S : 
   length (nz_subs S nidx) = length nidx /\ length (nz_vals v0 S nidx) = length nidx /\
   Forall2 (fun row v => exists i, row = zidx i /\ inb (sshape S) i = true /\ v = den_sp v0 S i /\ isz v = false)
           (nz_subs S nidx) (nz_vals v0 S nidx).
-Proof.
-  intros V v0 isz S nidx W Hk.
-  exact (conj (proj1 (nz_lengths v0 S nidx)) (conj (proj2 (nz_lengths v0 S nidx)) (nz_values v0 isz S nidx W Hk))).
-Qed.
+Proof. exact thm_nonzero_samples. Qed.
 Print Assumptions C13_nonzero_samples.
 
 (* zero samples of the stratified sampler are inside the tensor and are true zeros of the data *)
@@ -378,8 +362,16 @@ Theorem C13_zero_samples_true_zeros : forall (V : Type) (v0 : V) D (S : sparse V
   pos_shape (sshape S) -> Forall (unit_draws D (sshape S)) draws -> nzidx_ok S nzidx ->
   Forall (fun row => exists i, row = zidx i /\ inb (sshape S) i = true /\ den_sp v0 S i = v0)
          (zero_subs D (sshape S) nzidx draws req).
-Proof. intros V v0 D S nzidx draws req HD. exact (zero_subs_true_zeros D HD v0 S nzidx draws req). Qed.
+Proof. exact (fun V v0 D S nzidx draws req HD => zero_subs_true_zeros D HD v0 S nzidx draws req). Qed.
 Print Assumptions C13_zero_samples_true_zeros.
+
+(* the oversampling rule of samplers.zeros in exact arithmetic, for any rate pn/pd >= 1 (the code: 1.1): at least as many subscript
+   rows are drawn as zeros are requested, for every request and every tensor with at least one zero (the float quotient / product of
+   the code are recorded oracles in the correspondence: Alg/C13Harness.v zero_draw_rows) *)
+Theorem C13_zero_oversample : forall pn pd size numz req,
+  0 < pd <= pn -> 0 < numz <= size -> 0 <= req -> req <= rows_exact pn pd size numz req.
+Proof. exact rows_exact_ge_request. Qed.
+Print Assumptions C13_zero_oversample.
 
 (* |subscripts| = |values| for the stratified sampler exactly when the draws contain enough zeros; the repaired
    sampler (values sized by what was obtained) always agrees — finding C13-S1 *)
@@ -388,9 +380,7 @@ Theorem C13_stratified_lengths : forall (V : Type) (v0 : V) D (S : sparse V) nzi
      (length nidx + Nat.min num_zeros (length (filter (is_zero_row (sshape S) nzidx) (map (draw_row D (sshape S)) draws))))%nat /\
    length (strat_vals v0 S nidx num_zeros) = (length nidx + num_zeros)%nat) /\
   length (strat_subs D S nzidx nidx draws num_zeros) = length (strat_vals_fixed D v0 S nzidx nidx draws num_zeros).
-Proof.
-  intros. exact (conj (strat_lengths D v0 S nzidx nidx draws num_zeros) (strat_fixed_lengths_agree D v0 S nzidx nidx draws num_zeros)).
-Qed.
+Proof. exact thm_stratified_lengths. Qed.
 Print Assumptions C13_stratified_lengths.
 
 Theorem C13_semistrat : forall (V : Type) (v0 : V) D (S : sparse V) nidx draws, 0 < D ->
@@ -398,9 +388,7 @@ Theorem C13_semistrat : forall (V : Type) (v0 : V) D (S : sparse V) nidx draws, 
    length (semi_vals v0 S nidx draws) = (length nidx + length draws)%nat) /\
   (pos_shape (sshape S) -> Forall (unit_draws D (sshape S)) draws ->
    Forall (in_rangeZ (sshape S)) (map (draw_row D (sshape S)) draws)).
-Proof.
-  intros V v0 D S nidx draws HD. exact (conj (semi_lengths D v0 S nidx draws) (semi_in_range D HD S draws)).
-Qed.
+Proof. exact thm_semistrat. Qed.
 Print Assumptions C13_semistrat.
 
 (* weights: n samples of weight c/n total c, the number of entries the stratum stands for *)
@@ -418,14 +406,7 @@ Theorem C13_stratified_weights : forall (nnzq zerosq : Qc) (cn cz : nat),
   ((0 < cz)%nat -> wsum (skipn cn (strat_weights nnzq zerosq cn cz)) = zerosq) /\
   (forall (V : Type) (v0 : V) (S : sparse V) nidx, length nidx = cn ->
      length (strat_weights nnzq zerosq cn cz) = length (strat_vals v0 S nidx cz)).
-Proof.
-  intros nnzq zerosq cn cz.
-  exact (conj (proj1 (strat_weights_total nnzq zerosq cn cz))
-        (conj (proj1 (proj2 (strat_weights_total nnzq zerosq cn cz)))
-        (conj (proj2 (proj2 (strat_weights_total nnzq zerosq cn cz)))
-              (fun V v0 S nidx H => eq_trans (proj1 (strat_weights_total nnzq zerosq cn cz))
-                 (eq_sym (eq_trans (proj2 (strat_lengths 1%Z v0 S nil nidx nil cz)) (f_equal (fun n => (n + cz)%nat) H))))))).
-Qed.
+Proof. exact thm_stratified_weights. Qed.
 Print Assumptions C13_stratified_weights.
 
 (* non-vacuity on concrete non-symmetric instances *)
@@ -442,7 +423,7 @@ Example C13_example_solve :     (* estimates 10, 7, 9 (failed), 4: best = epoch 
   let s := zsolve [10; 7; 9; 4] 1 None 3 in
   cur _ _ _ s = 3%nat /\ zfull_trace [10; 7; 9; 4] s = [10; 7; 9; 4] /\ zreported_trace [10; 7; 9; 4] 3 s = [10; 7; 9; 4] /\
   nfails _ _ _ s = 1%nat.
-Proof. repeat split; reflexivity. Qed.
+Proof. exact thm_example_solve. Qed.
 Example C13_example_reuse :     (* an Adagrad-like accumulator: with reset_state the second solve on the same object equals the first *)
   let s1 := w_solve (fun _ => 0%nat) (0%nat, 0%nat) in
   cur _ _ _ s1 = 96%nat /\ obj_after _ _ _ s1 = (0%nat, 3%nat) /\ cur _ _ _ (w_solve (fun _ => 0%nat) (obj_after _ _ _ s1)) = 96%nat /\
@@ -459,4 +440,4 @@ Proof. exact config_examples. Qed.
 Example C13_example_vec :
   tovec_f nat 0%nat (mkK (1 :: 1 :: nil)%nat (((1 :: 2 :: nil) :: (3 :: 4 :: nil) :: (5 :: 6 :: nil) :: nil) :: ((7 :: 8 :: nil) :: (9 :: 10 :: nil) :: nil) :: nil)%nat)
   = (1 :: 3 :: 5 :: 2 :: 4 :: 6 :: 7 :: 9 :: 8 :: 10 :: nil)%nat.
-Proof. reflexivity. Qed.
+Proof. exact thm_example_vec. Qed.
